@@ -69,7 +69,10 @@ func oneFilter(text string) (substitution.FieldFilter, string) {
 func applyFilter(text string, src []byte) hx.Sx {
 	f, err := oneFilter(text)
 	if err != "" {
-		return hx.L(hx.I(7), hx.S(err))
+		if strings.HasPrefix(err, "rejected") {
+			return hx.L(hx.I(7)) // the configuration is not accepted (the model says when)
+		}
+		return hx.L(hx.I(8), hx.S(err))
 	}
 	var out []byte
 	s := exact(src)
@@ -574,7 +577,7 @@ func genModels(c *hmain.Ctx) {
 		{`(a|(b))+`, [][]int64{{1, 2}, {2}}},
 		{`(a*)(b*)`, [][]int64{{1, 2}, {2, 1}, {}}},
 		{`()`, [][]int64{{1}, {0}}},
-		{`b`, [][]int64{{0}}},
+		{`(b)`, [][]int64{{0}}},
 	}
 	allStrings([]string{"a", "b"}, pick(4, 6), func(s string, n int) {
 		for _, rc := range res[:5] {
@@ -671,13 +674,24 @@ func genModels(c *hmain.Ctx) {
 		c.Do("json-extract-do", 38, hx.L(hx.S(hx.Pick(r, cfg38)), hx.L(dit...)), true)
 		// modify without regexp filters
 		var ops []hx.Sx
+		// ParseSubstitution looks for the first '|' in the whole remaining text: a field op without
+		// filters followed by one with filters makes Start panic (a config-time crash, outside C13's
+		// accepted configurations): once an op has no filter the later ones get none either
+		noMoreFilters := false
 		for k := r.Range(1, 3); k > 0; k-- {
 			if r.Chance(1, 3) {
 				ops = append(ops, hx.L(hx.I(0), hx.S(hx.Pick(r, []string{"value is ", " - ", ".", "x"}))))
 				continue
 			}
 			var fl []hx.Sx
-			for q := r.Intn(3); q > 0; q-- {
+			nf := r.Intn(3)
+			if noMoreFilters {
+				nf = 0
+			}
+			if nf == 0 {
+				noMoreFilters = true
+			}
+			for q := nf; q > 0; q-- {
 				switch r.Intn(3) {
 				case 0:
 					fl = append(fl, hx.L(hx.I(0), hx.Bool(r.Bool()), hx.I(r.Range(1, 8))))
